@@ -97,7 +97,10 @@ Plan genFaulty(const std::string& prop, int tier, uint64_t batchSeed, uint64_t i
     Gen g(prop, tier, batchSeed, streamIdx);
     Rng& r = g.rng;
     g.cfg().set("rx", 1).set("sweep", sweep ? 1 : 0);
-    const size_t nNodes = sweep ? 1 + r.below(2) : 1 + r.below(3);
+    // one random run in ten: a long stream of one endpoint that loses a BURST of consecutive frames whose length sits on
+    // an 8/9-bit boundary (254..258, 511..513): counters and segment indexes that alias modulo 256 must not be accepted
+    const bool burst = !sweep && r.chance(1, 10);
+    const size_t nNodes = burst ? 1 : (sweep ? 1 + r.below(2) : 1 + r.below(3));
     auto eps = g.pickEndpoints(nNodes);
     std::vector<int> nodeType(nNodes);
     for (size_t i = 0; i < nNodes; ++i)
@@ -108,7 +111,7 @@ Plan genFaulty(const std::string& prop, int tier, uint64_t batchSeed, uint64_t i
             n.set("ctr0", r.chance(1, 3) ? (r.pick<int64_t>({0x10000, 0x8000, 0x100}) - 1 - static_cast<int64_t>(r.below(30))) : static_cast<int64_t>(r.below(65536)));
         n.set("gap", r.pick<int64_t>({1, 2, 5, 10}));
     }
-    const size_t nOps = sweep ? 4 + r.below(5) : 3 + r.below(tier ? 30 : 14);
+    const size_t nOps = burst ? 120 + r.below(160) : (sweep ? 4 + r.below(5) : 3 + r.below(tier ? 30 : 14));
     struct OpRef
     {
         size_t item;
@@ -116,10 +119,16 @@ Plan genFaulty(const std::string& prop, int tier, uint64_t batchSeed, uint64_t i
         bool seg;
     };
     std::vector<OpRef> ops;
+    if (burst)
+        nodeType[0] = 2;
+    for (auto& it : g.plan.items)
+        if (burst && it.tag == "node")
+            it.set("type", 2).set("gap", 1).set("ctr0", static_cast<int64_t>(r.below(65536)));
+    const int burstSegs = static_cast<int>(r.range(2, 4));
     for (size_t o = 0; o < nOps; ++o)
     {
         int ni = static_cast<int>(r.below(nNodes));
-        int64_t est = addTrafficOp(g, ni + 1, nodeType[ni], true, sweep ? 4 : 12);
+        int64_t est = addTrafficOp(g, ni + 1, nodeType[ni], true, burst ? burstSegs : (sweep ? 4 : 12));
         ops.push_back(OpRef{g.plan.items.size() - 1, est, est > 1});
     }
     auto faultAt = [&](int kind, int64_t pos, uint64_t salt)
@@ -180,7 +189,22 @@ Plan genFaulty(const std::string& prop, int tier, uint64_t batchSeed, uint64_t i
     int64_t totalFrames = 0;
     for (auto& o : ops)
         totalFrames += o.frames;
-    if (sweep)
+    if (burst)
+    {
+        const int64_t len = r.pick<int64_t>({254, 255, 256, 256, 256, 257, 258, 511, 512, 512, 513});
+        const int64_t start = static_cast<int64_t>(r.below(static_cast<uint64_t>(std::max<int64_t>(1, totalFrames - len - 3))));
+        int64_t acc = 0;
+        for (auto& o : ops)
+        {
+            Item& op = g.plan.items[o.item];
+            for (int64_t f = 0; f < o.frames; ++f)
+                if (acc + f >= start && acc + f < start + len)
+                    addFault(op, F_PARTITION, f);
+            acc += o.frames;
+        }
+        g.cfg().set("burst", len);
+    }
+    else if (sweep)
     {
         const int kind1 = static_cast<int>(j % 7);
         const int64_t pos1 = static_cast<int64_t>((j / 7) % 24);
